@@ -90,6 +90,41 @@ def unencoded_via_plain_entry(ctx):
     return out
 
 
+def wrong_curve_signatures(ctx):
+    """ECDSA signatures made OUTSIDE the library on another curve than the one the header's algorithm names (with that
+    algorithm's hash, in the R||S width of either curve), presented with the key they were made with: well-formed ECDSA,
+    but not a signature under 'the algorithm named in the header' - every entry point refuses."""
+    from cryptography.hazmat.primitives import hashes
+    from cryptography.hazmat.primitives.asymmetric import ec
+    from cryptography.hazmat.primitives.asymmetric.utils import decode_dss_signature
+    H = {"ES256": hashes.SHA256, "ES384": hashes.SHA384, "ES512": hashes.SHA512, "ES256K": hashes.SHA256}
+    CRV = {"ES256": "p256", "ES384": "p384", "ES512": "p521", "ES256K": "k256"}
+    width = {"p256": 32, "p384": 48, "p521": 66, "k256": 32}
+    out = []
+    for alg in H:
+        for kn in ("p256", "p384", "p521", "k256"):
+            if kn == CRV[alg]:
+                continue
+            native = J.native_priv(kn)
+            hdr = {"alg": alg}
+            hseg = J.b64u(J.jwsref.spell(hdr, ctx.rng, 0))
+            pseg = J.b64u(b"pay 1000 to mallory")
+            r, s_ = decode_dss_signature(native.sign(hseg + b"." + pseg, ec.ECDSA(H[alg]())))
+            for w in sorted({width[kn], width[CRV[alg]]}):
+                if r >= 1 << (8 * w) or s_ >= 1 << (8 * w):
+                    continue
+                sig = J.b64u(r.to_bytes(w, "big") + s_.to_bytes(w, "big"))
+                meta = {"alg": alg, "key": kn, "payload": b"pay 1000 to mallory", "header": dict(hdr)}
+                pub = J.make_key(kn)
+                tok = hseg + b"." + pseg + b"." + sig
+                note = f"signature-on-{kn}-labelled-{alg}"
+                out.append(J.VCase("compact", tok, pub, note=note, meta=meta))
+                out.append(J.VCase("c7797", tok, pub, note=note, meta=meta))
+                out.append(J.VCase("flat", {"protected": hseg.decode(), "payload": pseg.decode(), "signature": sig.decode()}, pub, note=note, meta=meta))
+                out.append(J.VCase("general", {"payload": pseg.decode(), "signatures": [{"protected": hseg.decode(), "signature": sig.decode()}]}, pub, note=note, meta=meta))
+    return out
+
+
 def unprotected_only(ctx):
     """Flattened JWS whose only header is the unprotected one (nothing but the payload is signed), and the
     RFC 7797 switch injected into that unprotected header."""
@@ -155,7 +190,7 @@ def multi_signer(ctx):
 
 
 def run(ctx):
-    cases = build(ctx, 1 if ctx.tier == "quick" else 6) + unprotected_only(ctx) + multi_signer(ctx) + zero_led_rsa_signatures(ctx) + unencoded_via_plain_entry(ctx)
+    cases = build(ctx, 1 if ctx.tier == "quick" else 6) + unprotected_only(ctx) + multi_signer(ctx) + zero_led_rsa_signatures(ctx) + unencoded_via_plain_entry(ctx) + wrong_curve_signatures(ctx)
     J.run_verify_cases(ctx, "jws-verify", cases, check_c01=True, prop="C01")
     if ctx.tier == "thorough":
         # every bit of every decoded segment for one token per algorithm family
